@@ -17,6 +17,10 @@ HARNESSES = {
                   cflags="-I%s/harness/refdns" % VERIF),
     "simnet": dict(srcs=["harness/simnet/simnet.c"], flavor="asan-det",
                    ldflags="-Wl,--wrap=ares_tvnow -Wl,--wrap=getenv -Wl,--wrap=srand"),
+    "defsock": dict(srcs=["harness/defsock/defsock.c"], flavor="asan",
+                    ldflags="-Wl,--wrap=socket -Wl,--wrap=close -Wl,--wrap=connect -Wl,--wrap=setsockopt -Wl,--wrap=fcntl "
+                            "-Wl,--wrap=bind -Wl,--wrap=getsockname -Wl,--wrap=sendto -Wl,--wrap=send -Wl,--wrap=recvfrom "
+                            "-Wl,--wrap=recv"),
     "cfg": dict(srcs=["harness/cfg/cfg.c"], flavor="asan-det",
                 ldflags="-Wl,--wrap=fopen -Wl,--wrap=stat -Wl,--wrap=getenv -Wl,--wrap=ares_tvnow"),
 }
